@@ -39,7 +39,10 @@ SLOTS = [
     [f'$DATA {DATA} IGNORE=@\n'],
     # 4
     ['$SUBROUTINE ADVAN1 TRANS2\n$PK\nCL = THETA(1)*EXP(ETA(1))\nV = THETA(2)*EXP(ETA(2))\nS1 = V\n',
-     '$SUBS ADVAN1 TRANS2\n\n$PK\n; clearance\nCL = THETA(1) * EXP(ETA(1)) ; cl\n\nV=THETA(2)* &\n  EXP(ETA(2))\n  S1 = V\n'],
+     '$SUBS ADVAN1 TRANS2\n\n$PK\n; clearance\nCL = THETA(1) * EXP(ETA(1)) ; cl\n\nV=THETA(2)* &\n  EXP(ETA(2))\n  S1 = V\n',
+     # a block IF without assignment (only an EXIT) between the statements
+     '$SUBROUTINE ADVAN1 TRANS2\n$PK\nCL = THETA(1)*EXP(ETA(1))\nIF (CL.LE.0) THEN\n  EXIT 1 100\nEND IF\n'
+     'V = THETA(2)*EXP(ETA(2))\nS1 = V\n'],
     # 5
     ['$ERROR\nY = F + F*EPS(1)\n', '$ERROR\n"FIRST\n" COMMON /X/ Z\nW = F\nY = F + W*EPS(1) ; prop\n'],
     # 6
@@ -130,6 +133,18 @@ def _body(idx, edit):
     remainder += out[pos:]
     # what is left is the re-written record(s) of the changed slot: the same record names as before, nothing else
     names = lambda t: [ln.split()[0][:4].upper() for ln in t.splitlines() if ln.startswith('$')]  # noqa: E731
+    if edit == 4:
+        # only the edited statement changes: every other line of the record is kept verbatim and in order
+        at = 0
+        for ln in chunks[changed].splitlines():
+            if ln.replace(' ', '').upper().startswith('S1='):
+                continue
+            k = remainder.find(ln + '\n', at)
+            if k < 0:
+                raise AssertionError(f'edit {edit}: line {ln!r} of the edited record not preserved (in order) in {remainder!r}')
+            at = k + len(ln) + 1
+        if sum(1 for ln in remainder.splitlines() if ln.replace(' ', '').upper().startswith('S1=')) != 1:
+            raise AssertionError(f'edit {edit}: the edited statement does not appear exactly once in {remainder!r}')
     if edit != 6 and names(remainder) != names(chunks[changed]):
         raise AssertionError(f'edit {edit}: records {names(remainder)} written for the edited slot {names(chunks[changed])}: {out!r}')
     # every comment of the re-written record(s) is preserved exactly (it still ends its line).  Not demanded: the
@@ -180,3 +195,51 @@ def model_regen__twin(i0: int, i1: int, i2: int, i4: int, i5: int, i6: int, i7: 
     idx = _codes(i0, i1, i2, i4, i5, i6, i7, i8, i9)
     with _NoTracing():
         return _body(idx, EDIT) is not True
+
+
+def append_statement_at_end(k: int) -> bool:
+    """
+    A statement is appended to the LAST record of a control stream whose last line has no line break (k = 0: the
+    stream ends with $ERROR, k = 1: with $PK): the generated code keeps every line of the text and holds the new
+    statement on a line of its own; reading it again gives the statements of the in-memory model.
+    pre: 0 <= k <= 1
+    post: _ == True
+    """
+    k = _pick(k, 0, 2)
+    with _NoTracing():
+        from pharmpy.model import Assignment
+        from pharmpy.basic import Expr
+        base = [s_[0] for s_ in SLOTS]
+        pk = '$SUBROUTINE ADVAN1 TRANS2\n$PK\nCL = THETA(1)*EXP(ETA(1))\nV = THETA(2)*EXP(ETA(2))\nS1 = V'
+        err = '$ERROR\nY = F + F*EPS(1)'
+        head = ''.join(base[:4]) + base[6] + base[7] + base[8] + base[9]
+        text = head + (pk + '\n' + err if k == 0 else err + '\n' + pk)
+        m = Model.parse_model_from_string(text)
+        if m.update_source().code != text:
+            raise AssertionError('regenerating the unmodified model changed the code')
+        new = Assignment.create(Expr.symbol('ZNEW'), Expr.symbol('V') * 2)
+        st = m.statements
+        if k == 0:
+            m2 = m.replace(statements=st + new)
+        else:
+            i = st.find_assignment_index('S1')
+            m2 = m.replace(statements=st[:i + 1] + new + st[i + 1:])
+        out = m2.update_source().code
+        lines = out.splitlines()
+        for ln in text.splitlines():
+            if ln not in lines:
+                raise AssertionError(f'line {ln!r} of the text is not a line of the generated code {out!r}')
+        if sum(1 for ln in lines if ln.replace(' ', '').upper().startswith('ZNEW=')) != 1:
+            raise AssertionError(f'the appended statement is not on a line of its own: {out!r}')
+        back = Model.parse_model_from_string(out)
+        if [str(x) for x in back.statements] != [str(x) for x in m2.update_source().statements]:
+            raise AssertionError(f're-read statements differ: {out!r}')
+        return True
+
+
+def append_statement_at_end__twin(k: int) -> bool:
+    """
+    pre: 0 <= k <= 1
+    post: _ == True
+    """
+    return not append_statement_at_end(k)
